@@ -55,10 +55,14 @@ structure Run (κ : Type) where
   kwargs : Kwargs κ
 deriving Repr, DecidableEq
 
-/-- `runs_list`: iterations outermost, run ids count up -/
+/-- `run_id` counts up over the work list -/
+def number : Nat → List (Nat × Kwargs κ) → List (Run κ)
+  | _, [] => []
+  | i, (it, kw) :: rest => { runId := i, iteration := it, kwargs := kw } :: number (i + 1) rest
+
+/-- `runs_list`: iterations outermost, every kwargs dict once per iteration -/
 def runList (kws : List (Kwargs κ)) (iterations : Nat) : List (Run κ) :=
-  ((List.range iterations).flatMap fun it => kws.map fun kw => (it, kw)).zipIdx.map
-    fun ((it, kw), i) => { runId := i, iteration := it, kwargs := kw }
+  number 0 ((List.range iterations).flatMap fun it => kws.map fun kw => (it, kw))
 
 structure Prog where
   cfg : Cfg
